@@ -530,9 +530,27 @@ fn load_program_from_reader<R: Read + Seek>(r: &mut R, total_len: u64) -> MResul
     );
   }
 
+  // Every section named by the header must lie inside the file. A damaged offset or
+  // length has to fail here: further down the lengths size the read buffers.
+  macro_rules! section_in_file {
+    ($off:expr, $len:expr) => {
+      if $len > total_len || $off > total_len - $len {
+        return Err(MechError::new(
+          FileTooShortError { total_len, expected_len: $off.saturating_add($len) },
+          None
+        ).with_compiler_loc());
+      }
+    };
+  }
+  section_in_file!(header.const_tbl_off, header.const_tbl_len);
+  section_in_file!(header.const_blob_off, header.const_blob_len);
+  section_in_file!(header.symbols_off, header.symbols_len);
+  section_in_file!(header.instr_off, header.instr_len);
+  section_in_file!(header.dict_off, header.dict_len);
+
   // 2. read features
   let mut features = Vec::new();
-  if header.feature_off != 0 && header.feature_off + 4 <= total_len.saturating_sub(4) {
+  if header.feature_off != 0 && header.feature_off.saturating_add(4) <= total_len.saturating_sub(4) {
     r.seek(SeekFrom::Start(header.feature_off))?;
     let c = r.read_u32::<LittleEndian>()? as usize;
     for _ in 0..c {
@@ -543,7 +561,7 @@ fn load_program_from_reader<R: Read + Seek>(r: &mut R, total_len: u64) -> MResul
 
   // 3. read types
   let mut types = TypeSection::new();
-  if header.types_off != 0 && header.types_off + 4 <= total_len.saturating_sub(4) {
+  if header.types_off != 0 && header.types_off.saturating_add(4) <= total_len.saturating_sub(4) {
     r.seek(SeekFrom::Start(header.types_off))?;
     let types_count = r.read_u32::<LittleEndian>()? as usize;
     for _ in 0..types_count {
@@ -551,6 +569,9 @@ fn load_program_from_reader<R: Read + Seek>(r: &mut R, total_len: u64) -> MResul
       let _reserved = r.read_u16::<LittleEndian>()?; // reserved, always 0
       let _version = r.read_u32::<LittleEndian>()?; // version, always 1
       let bytes_len = r.read_u32::<LittleEndian>()? as usize;
+      if bytes_len as u64 > total_len {
+        return Err(MechError::new(FileTooShortError { total_len, expected_len: bytes_len as u64 }, None).with_compiler_loc());
+      }
       let mut bytes = vec![0u8; bytes_len];
       r.read_exact(&mut bytes)?;
       if let Some(tag) = TypeTag::from_u16(tag) {
@@ -619,6 +640,9 @@ fn load_program_from_reader<R: Read + Seek>(r: &mut R, total_len: u64) -> MResul
     while cur.position() < dict_bytes.len() as u64 {
       let id = cur.read_u64::<LittleEndian>()?;
       let name_len = cur.read_u32::<LittleEndian>()? as usize;
+      if name_len > dict_bytes.len() {
+        return Err(MechError::new(FileTooShortError { total_len, expected_len: name_len as u64 }, None).with_compiler_loc());
+      }
       let mut name_bytes = vec![0u8; name_len];
       cur.read_exact(&mut name_bytes)?;
       let name = String::from_utf8(name_bytes).map_err(|_| 
